@@ -29,7 +29,7 @@ Normalisation of repository text (mechanical, applied on every run, logged):
   N1  comments and doc comments dropped; all attributes `#[..]` dropped; `#[cfg(..)]` resolved for
       the unit's feature set (attributed item / let statement / block kept or dropped);
   N2  `crate::`  ->  `crate::<crate module>::`  (single-file module tree);
-  N3  `.to_be_bytes()` -> `.to_be_bytes_x()` (trusted wrapper carrying the assumed std contract);
+  N3  `.to_be_bytes()` / `.sort()` / `.dedup()` -> `..._x()` (trusted wrappers carrying the assumed std contract);
   N4  rule R1/R2/H rewrites where requested by `rules=` (see rules.py).
 """
 import difflib
@@ -148,7 +148,7 @@ def normalize(toks, lo, hi, features, crate_mod, log):
 
 
 # N3: std methods whose signature assume_specification cannot name -> trusted wrapper of the same contract
-RENAMES = {'to_be_bytes': 'to_be_bytes_x'}
+RENAMES = {'to_be_bytes': 'to_be_bytes_x', 'sort': 'sort_x', 'dedup': 'dedup_x'}
 
 
 def node_end(toks, j, hi):
@@ -286,6 +286,44 @@ def thash(ts):
     return hashlib.sha256('\x1f'.join(texts(ts)).encode()).hexdigest()[:16]
 
 
+def chunks(tx):
+    """split a token-text list into statement-like chunks (each ends after ';', '{' or '}')"""
+    out = []
+    a = 0
+    for i, t in enumerate(tx):
+        if t in (';', '{', '}'):
+            out.append((a, i + 1))
+            a = i + 1
+    if a < len(tx):
+        out.append((a, len(tx)))
+    return out
+
+
+def align(old, new):
+    """old-token-index -> new-token-index for tokens considered unchanged.
+    Two levels: whole statement-like chunks first (so that a deleted or inserted statement cannot be
+    mis-aligned with a look-alike prefix of a neighbour), then tokens inside replaced chunk ranges."""
+    co, cn = chunks(old), chunks(new)
+    ko = [tuple(old[a:b]) for a, b in co]
+    kn = [tuple(new[a:b]) for a, b in cn]
+    m = {}
+    sm = difflib.SequenceMatcher(a=ko, b=kn, autojunk=False)
+    for tag, i1, i2, j1, j2 in sm.get_opcodes():
+        if tag == 'equal':
+            for d in range(i2 - i1):
+                (a, b), (c, _) = co[i1 + d], cn[j1 + d]
+                for x in range(b - a):
+                    m[a + x] = c + x
+        elif tag == 'replace':
+            a0, a1 = co[i1][0], co[i2 - 1][1]
+            b0, b1 = cn[j1][0], cn[j2 - 1][1]
+            sm2 = difflib.SequenceMatcher(a=old[a0:a1], b=new[b0:b1], autojunk=False)
+            for a, b, size in sm2.get_matching_blocks():
+                for d in range(size):
+                    m[a0 + a + d] = b0 + b + d
+    return m
+
+
 # ------------------------------------------------------------------ region assembly
 
 class Region:
@@ -353,11 +391,7 @@ def build_region(args, body, features, rules_mod=None):
         return r
     # ---------------- transplant
     r.changed = True
-    sm = difflib.SequenceMatcher(a=texts(e_old), b=texts(e_new), autojunk=False)
-    old2new = {}
-    for a, b, size in sm.get_matching_blocks():
-        for d in range(size):
-            old2new[a + d] = b + d
+    old2new = align(texts(e_old), texts(e_new))
     r.n_changed_tokens = max(len(e_old), len(e_new)) - len(old2new)
     # ghost spans: (k = exec index before which it goes, text)
     spans = []
